@@ -999,7 +999,11 @@ class _ClassBuilder:
         return self
 
     def add_str(self):
-        if not self._repr_added:
+        # A __repr__ exists if we generate one or if the class body has its
+        # own (e.g. found by auto_detect, or kept by repr=False).
+        if not self._repr_added and not _has_own_attribute(
+            self._cls, "__repr__"
+        ):
             msg = "__str__ can only be generated if a __repr__ exists."
             raise ValueError(msg)
 
